@@ -4,15 +4,21 @@ Proved (coq/props/C17.v): base64, UTF-8 and hex round trips for all byte strings
 scalar values / all u64, on arithmetic models of the base64 crate's STANDARD engine, of
 String::into_bytes / str::from_utf8 and of u64 parse / {:#x} / from_str_radix.  The models are tied
 to the crates by the correspondence run (encode AND strict decode on valid and invalid inputs).
-JSON (serde_json + the collection glue) and the properties format (java-properties crate + the
-glue) are NOT modelled in Coq: they are covered by a round-trip exploration against the
-property's own oracle (normalised document / same keys and values) and labelled as testing."""
+JSON: the collection glue (create_structure / put_handle / encode_from_state_value / encode_from_state) is
+modelled in coq/theories/Json.v on serde_json's already parsed Value and C17_json proves that the round trip
+is the documented normalisation for every document; the extracted model AND the extracted spec (normalise)
+are compared with the implementation on every generated document, the Python oracle is kept as a third
+cross-check.  serde_json's text layer stays an oracle.  The properties format (java-properties crate + the
+glue) is NOT modelled in Coq: round-trip exploration against the property's own oracle, labelled as testing."""
 import itertools
 import json
+import re
 import vlib
 from vlib import enc_str, dec_str, enc_list, dec_list
 
-THEOREMS = ["C17_b64", "C17_utf8", "C17_utf8_bytes", "C17_text_b64", "C17_hex", "C17_hex_cmds", "C17_nonvacuous"]
+THEOREMS = ["C17_b64", "C17_utf8", "C17_utf8_bytes", "C17_text_b64", "C17_hex", "C17_hex_cmds", "C17_nonvacuous",
+            "C17_json", "C17_json_ex", "C17_json_fuel", "C17_json_fresh", "C17_json_store", "C17_json_nonvacuous"]
+JSON_THEOREMS = ["C17_json", "C17_json_fresh", "C17_json_fuel"]
 
 
 def enc_bytes(b):
@@ -66,38 +72,159 @@ def prop_text(rng, n):
 FLOATS = [("1.5", "1.5"), ("-0.25", "-0.25"), ("1e3", "1000.0"), ("1.0", "1.0"), ("2.5e-3", "0.0025")]
 
 
-def rand_json(rng, depth):
-    """returns (text fragment, normalised python value or None when dropped)"""
+def rand_tree(rng, depth):
+    """a parsed document: ("n",) | ("b", bool) | ("#", source text, serde's to_string) | ("s", text) |
+    ("a", items) | ("o", [(key, value)...] in the order of the TEXT, unique keys, whitespace)"""
     r = rng.random()
     if depth <= 0 or r < 0.45:
         k = rng.random()
         if k < 0.15:
-            return "null", None
+            return ("n",)
         if k < 0.3:
-            b = rng.choice([True, False])
-            return ("true" if b else "false"), ("true" if b else "false")
+            return ("b", rng.choice([True, False]))
         if k < 0.5:
             n = rng.choice([0, 1, -1, 42, 2 ** 31, -2 ** 63, 2 ** 64 - 1, rng.randint(-10 ** 6, 10 ** 6)])
-            return str(n), str(n)
+            return ("#", str(n), str(n))
         if k < 0.6:
-            t, s = rng.choice(FLOATS)
-            return t, s
+            t, sv = rng.choice(FLOATS)
+            return ("#", t, sv)
         s = rand_text(rng, rng.randint(0, 6)) if rng.random() < 0.5 else rng.choice(
-            ["", "a", "a b", "x.y", "k[0]", "[OBJECT]", "true", "null", "5", "\"", "\\", "\n", "é", "😀", "handle:x"])
-        return json.dumps(s, ensure_ascii=False), s
+            ["", "a", "a b", "x.y", "k[0]", "[OBJECT]", "true", "null", "5", "\"", "\\", "\n", "é", "😀", "handle:x",
+             "handle:", "handle:00", "handle:0x", "Handle:0", "handle:0 "])
+        return ("s", s)
     if r < 0.72:
-        items = [rand_json(rng, depth - 1) for _ in range(rng.randint(0, 4))]
-        return "[" + ",".join(t for t, _ in items) + "]", [v for _, v in items if v is not None]
+        return ("a", [rand_tree(rng, depth - 1) for _ in range(rng.randint(0, 4))])
     keys = []
-    pool = ["a", "b", "a.b", "a b", "c[0]", "", "é", "length", "x.length", "k]", "[", ".", "A", "aa"]
+    pool = ["a", "b", "a.b", "a b", "c[0]", "", "é", "length", "x.length", "k]", "[", ".", "A", "aa", "handle:0"]
     for _ in range(rng.randint(0, 4)):
         k = rng.choice(pool) if rng.random() < 0.8 else rand_text(rng, rng.randint(1, 4))
         if k not in keys:
             keys.append(k)
-    items = [(k, rand_json(rng, depth - 1)) for k in keys]
-    ws = rng.choice(["", " ", "\n "])
-    text = "{" + ",".join(ws + json.dumps(k, ensure_ascii=False) + ":" + ws + t for k, (t, _) in items) + "}"
-    return text, {k: v for k, (_, v) in items if v is not None}
+    return ("o", [(k, rand_tree(rng, depth - 1)) for k in keys], rng.choice(["", " ", "\n "]))
+
+
+def tree_text(t):
+    """the JSON text handed to json_parse (object keys in generation order, not sorted)"""
+    k = t[0]
+    if k == "n":
+        return "null"
+    if k == "b":
+        return "true" if t[1] else "false"
+    if k == "#":
+        return t[1]
+    if k == "s":
+        return json.dumps(t[1], ensure_ascii=False)
+    if k == "a":
+        return "[" + ",".join(tree_text(x) for x in t[1]) + "]"
+    ws = t[2] if len(t) > 2 else ""
+    return "{" + ",".join(ws + json.dumps(key, ensure_ascii=False) + ":" + ws + tree_text(x) for key, x in t[1]) + "}"
+
+
+def tree_oracle(t):
+    """Python oracle: the normalised document as a Python value, None when dropped"""
+    k = t[0]
+    if k == "n":
+        return None
+    if k == "b":
+        return "true" if t[1] else "false"
+    if k == "#":
+        return t[2]
+    if k == "s":
+        return t[1]
+    if k == "a":
+        return [v for v in (tree_oracle(x) for x in t[1]) if v is not None]
+    return {key: v for key, v in ((key, tree_oracle(x)) for key, x in t[1]) if v is not None}
+
+
+def tree_wire(t, out):
+    """prefix notation of the PARSED document for the extracted model (see ocaml/c17_driver.ml); objects in
+    serde_json's Map (BTreeMap) iteration order = keys sorted by their UTF-8 bytes"""
+    k = t[0]
+    if k == "n":
+        out.append("n")
+    elif k == "b":
+        out.append("t" if t[1] else "f")
+    elif k == "#":
+        out.append("#" + enc_str(t[2]))
+    elif k == "s":
+        out.append("s" + enc_str(t[1]))
+    elif k == "a":
+        out.append("a%d" % len(t[1]))
+        for x in t[1]:
+            tree_wire(x, out)
+    else:
+        items = sorted(t[1], key=lambda kv: kv[0].encode("utf8"))
+        out.append("o%d" % len(items))
+        for key, x in items:
+            out.append("k" + enc_str(key))
+            tree_wire(x, out)
+    return out
+
+
+HNAME = re.compile(r"^handle:(0|[1-9][0-9]*)$")    # Json.is_hnameb: literally one of the MODEL's handle names
+
+
+def tree_leaves(t):
+    k = t[0]
+    if k == "b":
+        return ["true" if t[1] else "false"]
+    if k == "#":
+        return [t[2]]
+    if k == "s":
+        return [t[1]]
+    if k == "a":
+        return [s for x in t[1] for s in tree_leaves(x)]
+    if k == "o":
+        return [s for _, x in t[1] for s in tree_leaves(x)]
+    return []
+
+
+def tree_in_domain(t):
+    """Json.json_dom: unique keys per object (by construction) and no leaf is a model handle name"""
+    return not any(HNAME.match(s) for s in tree_leaves(t))
+
+
+def tree_stats(t):
+    """(depth, number of nulls, number of containers)"""
+    if t[0] == "a":
+        sub = [tree_stats(x) for x in t[1]]
+    elif t[0] == "o":
+        sub = [tree_stats(x) for _, x in t[1]]
+    else:
+        return 0, (1 if t[0] == "n" else 0), 0
+    return 1 + max([d for d, _, _ in sub] + [0]), sum(n for _, n, _ in sub), 1 + sum(c for _, _, c in sub)
+
+
+def small_trees():
+    """every document of depth <= 2 over the leaves null/true/5/"s", arrays of length <= 2 and objects with
+    keys within {b, a} (written in that order, so that the Map's sorting is exercised)"""
+    d0 = [("n",), ("b", True), ("#", "5", "5"), ("s", "s")]
+    def level(sub):
+        out = [("a", [])] + [("a", [x]) for x in sub] + [("a", [x, y]) for x in sub for y in sub]
+        out += [("o", [], "")] + [("o", [("b", x)], "") for x in sub] + [("o", [("a", x)], "") for x in sub]
+        out += [("o", [("b", x), ("a", y)], "") for x in sub for y in sub]
+        return out
+    d1 = d0 + level(d0)
+    return d1 + level(d1)
+
+
+def nest(n, leaf):
+    t = leaf
+    for i in range(n):
+        t = ("a", [("n",), t, ("s", "x")]) if i % 2 else ("o", [("k", t), ("z", ("n",))], "")
+    return t
+
+
+FIXED_TREES = [
+    ("n",), ("b", False), ("#", "0", "0"), ("s", ""), ("a", []), ("o", [], ""),
+    ("a", [("n",), ("n",)]), ("o", [("a", ("n",))], " "), ("a", [("a", [("a", [("n",)])])]),
+    ("o", [("a", ("a", [("#", "1", "1"), ("n",), ("o", [("b", ("n",)), ("c", ("b", True))], ""), ("a", [])])), ("n", ("n",)), ("s", ("s", "x"))], ""),
+    nest(8, ("s", "deep")), nest(9, ("n",)), nest(12, ("a", [])),
+    ("a", [("s", "v%d" % i) if i % 3 else ("n",) for i in range(120)]),
+    ("o", [("k%03d" % ((i * 37) % 101), ("a", [("#", str(i), str(i))])) for i in range(60)], ""),
+    ("a", [("s", "handle:x"), ("s", "handle:00"), ("s", "handle:"), ("s", "HANDLE:0")]),
+]
+OFF_DOMAIN_TREES = [("a", [("s", "handle:0")]), ("s", "handle:0"), ("o", [("k", ("a", [("s", "handle:1")]))], "")]
 
 
 def serde_dump(v):
@@ -247,20 +374,61 @@ def run(ck):
             if len(ck.violations) < 5:
                 ck.violation({"kind": "hex round trip", "n": n, "wire": "HEXRT\t" + enc_str(str(n)), "expected": want,
                               "implementation": o, "theorems": ["C17_hex_cmds"], "seed": ck.seed})
-    # JSON and properties: exploration against the property's oracle (not modelled in Coq)
-    docs = [rand_json(rng, rng.randint(0, 4)) for _ in range(6000 if thorough else 1500)]
-    out = ck.impl(["JSON\t" + enc_str(t) for t, _ in docs])
-    for (t, v), o in zip(docs, out):
-        want = "N" if v is None else "V" + enc_str(serde_dump(v))
+    # JSON: implementation vs the extracted model (create_structure + encode_from_state) vs the extracted spec
+    # (normalise) vs the Python oracle.  Corpus, exhaustive small scope, then random documents.
+    exh = small_trees()
+    if not thorough:
+        exh = [t for k, t in enumerate(exh) if k < 60 or k % 3 == ck.seed % 3]
+    trees = FIXED_TREES + exh + [rand_tree(rng, rng.randint(0, 4)) for _ in range(6000 if thorough else 1500)]
+    trees += [rand_tree(rng, rng.randint(5, 6)) for _ in range(300 if thorough else 60)]
+    n_off_gen = sum(1 for t in trees if not tree_in_domain(t))
+    trees = [t for t in trees if tree_in_domain(t)] + OFF_DOMAIN_TREES
+    jl = ["%s\t%s" % (enc_str(tree_text(t)), " ".join(tree_wire(t, []))) for t in trees]
+    out = ck.impl(["JSON\t" + x for x in jl])
+    mout = ck.model(["JSON\t" + x for x in jl])
+    sout = ck.model(["JSONS\t" + x for x in jl])
+    jstat = {"in_domain": 0, "off_domain": 0, "no_value": 0, "with_nulls_dropped": 0, "nested": 0, "depth": {}}
+
+    def show(o):
+        return dec_str(o[1:]) if o[:1] == "V" else o
+
+    for t, x, o, mo, so in zip(trees, jl, out, mout, sout):
+        text = tree_text(t)
         dist["JSON"] = dist.get("JSON", 0) + 1
-        nontriv.add("J" + t)
-        if o != want:
+        if not tree_in_domain(t):
+            jstat["off_domain"] += 1
+            if mo != "OFFDOMAIN":       # the Python domain predicate and Json.json_dom must agree
+                found = True
+                ck.violation({"kind": "domain predicates disagree (python in_domain vs Json.json_dom)", "document": text,
+                              "wire": "JSON\t" + x, "model": mo, "seed": ck.seed})
+            continue
+        v = tree_oracle(t)
+        want = "N" if v is None else "V" + enc_str(serde_dump(v))
+        d, nn, nc = tree_stats(t)
+        jstat["in_domain"] += 1
+        jstat["no_value"] += o == "N"
+        jstat["with_nulls_dropped"] += nn > 0 and d > 0
+        jstat["nested"] += nc > 1
+        jstat["depth"][d] = jstat["depth"].get(d, 0) + 1
+        if d > 0:
+            nontriv.add("J" + text)
+        if not (o == mo == so == want):
             found = True
             if len(ck.violations) < 5:
-                ck.violation({"kind": "json_parse --collection | json_encode --collection differs from the normalised document",
-                              "document": t, "wire": "JSON\t" + enc_str(t), "expected": want,
-                              "expected_text": None if v is None else serde_dump(v),
-                              "implementation": o, "implementation_text": dec_str(o[1:]) if o[:1] == "V" else o, "seed": ck.seed})
+                if o != so:
+                    kind = "json_parse --collection | json_encode --collection differs from the normalised document (extracted spec)"
+                elif o != mo:
+                    kind = "model-vs-implementation: JSON collection round trip"
+                elif mo != so:
+                    kind = "extracted model differs from extracted spec although proved equal (extraction / driver problem)"
+                else:
+                    kind = "Python oracle differs from implementation = model = spec (oracle / serde text layer problem)"
+                ck.violation({"kind": kind, "document": text, "wire": "JSON\t" + x,
+                              "implementation": o, "implementation_text": show(o),
+                              "model": mo, "model_text": show(mo), "spec": so, "spec_text": show(so),
+                              "python_oracle": want, "python_oracle_text": None if v is None else serde_dump(v),
+                              "theorems": JSON_THEOREMS, "seed": ck.seed})
+    docs = trees
     # known finding F18 (java-properties writer escapes code points as unpadded \\u{:x}): witnesses
     f18 = [k for k in ck.open_findings() if k.get("id") == "F18"]
     wit = [{"k": "é"}, {"k": "\x01"}, {"k": "😀"}]
@@ -311,15 +479,27 @@ def run(ck):
                 "non-trivial = distinct case whose result is a value (not an error) on a non-trivial input" % (5 if thorough else 4, 4 if thorough else 3, "ALL" if thorough else str(len(scal))),
         "exhaustive": True,
         "exhaustive_part": {"base64_encode_upto_len2": n_enc_exh, "all_scalar_values": thorough},
-        "samples": [both[5], both[n_enc_exh + 3], docs[0][0], sorted(maps[1].items())],
+        "samples": [both[5], both[n_enc_exh + 3], tree_text(docs[9]), tree_text(docs[len(FIXED_TREES) + len(exh) + 3]), sorted(maps[1].items())],
         "case_distribution": dist,
-        "not_modelled": ["serde_json text layer and the JSON collection glue (json_parse --collection / json_encode --collection): exploration only",
+        "json": dict(jstat, exhaustive_small_scope=len(exh), exhaustive_small_scope_complete=thorough, fixed=len(FIXED_TREES),
+                     random_off_domain_skipped=n_off_gen,
+                     compared="implementation == extracted model == extracted normalise == Python oracle, per document"),
+        "not_modelled": ["serde_json text layer (from_str, Value::to_string, Number::to_string, Map = BTreeMap ordering): oracle; the model works on the parsed Value",
+                         "HashMap iteration order of a SubState (irrelevant to the output: the encoder's Map is sorted again)",
+                         "json_parse / json_encode without --collection (variables form): not part of the theorem; harness case JSONV unused here",
                          "java-properties reader/writer and the prefix/trim glue: exploration only"],
     })
     ck.report_broken(found)
     ck.assumptions += [
         "the base64 crate's STANDARD engine, String::into_bytes / str::from_utf8, u64 parsing and {:#x} formatting are modelled (not verified); the models are validated against them on every run incl. exhaustive small scopes",
-        "JSON string leaves are assumed not to collide with live handle names (the code re-reads string values as handles)",
+        "JSON: the theorem is about the glue on serde_json's parsed Value (Json.v: create_structure, put_handle, encode_from_state_value, encode_from_state); "
+        "serde_json's text layer (parsing, number rendering, string escaping, BTreeMap key order, last-duplicate-key-wins) is an oracle, not modelled",
+        "JSON: handle names are random ('handle:' + 20 alphanumerics) in the code and allocated from a counter in the model; freshness of a new handle with respect to "
+        "the store and to every string/number/bool leaf of the document is ASSUMED (hypothesis json_dom: no leaf is literally a model handle name; the code re-reads "
+        "string values as handles, so a leaf equal to a live handle name would be followed)",
+        "JSON: an object is its key/value list in serde_json's Map iteration order with unique keys (hypothesis json_wfb); the check sends the keys already sorted by "
+        "their UTF-8 bytes (BTreeMap order) and the text with the keys in a different order; maps are association lists in insertion order in the model",
+        "JSON: the handle store is the fresh context's (store_wf: every cell was allocated by put_handle); out-of-fuel of the encoder (= unbounded recursion on a cyclic store) is excluded by C17_json_fuel",
         "properties round trip: keys/values are drawn from the code points outside known finding F18's class (the java-properties writer escapes "
         "code points as unpadded \\u{:x}, so control characters, U+0080..U+0FFF, the windows-1252 specials and non-BMP characters do not survive)",
         "JSON numbers are integers or a small pool of decimals whose serde_json rendering is fixed; float formatting is serde_json/ryu's",
